@@ -187,7 +187,7 @@ func execSeq(t *testing.T, plan *Plan, h seqHooks) *Outcome {
 			e.violate(violation("C16", "deadlock", "stall", fmt.Sprintf("sequential run did not finish: %s %s", sim.Deadlock, e.stallReport())))
 		}
 		if len(e.commits) > 0 {
-			e.out.StateHash = hash64(catalogDump(e.commits[len(e.commits)-1].Cat, false))
+			e.out.StateHash = stateFingerprint(e.commits[len(e.commits)-1].Cat)
 		}
 	})
 }
